@@ -51,6 +51,25 @@ class _Return(Exception):
         self.v = v
 
 
+class AngComp:
+    """one component of an *input* angle: (angle key, 'P' | 'Y' | 'R')"""
+    def __init__(self, key: str, axis: str, radians: bool = False) -> None:
+        self.key, self.axis, self.radians = key, axis, radians
+
+
+class NeedAssume(Exception):
+    """an arm tests an angle component against zero: the driver re-runs the case once for each answer"""
+    def __init__(self, key: Tuple[str, str]) -> None:
+        self.key = key
+
+
+ANG_AXES = {'pitch': 'P', 'yaw': 'Y', 'roll': 'R'}
+
+
+def trig_sym(fn: str, comp: AngComp) -> Poly:
+    return Poly.sym(f'{fn[0]}{comp.axis}[{comp.key}]')
+
+
 def mat_input(name: str, cls: str) -> Obj:
     return Obj(cls, {s: Poly.sym(f'{name}_{s}') for s in SLOTS}, 'input:' + name)
 
@@ -89,6 +108,8 @@ class Dispatcher:
                             self.aliases[t.id] = val.id
         self.trace: List[str] = []
         self.depth = 0
+        self.assume: Dict[Tuple[str, str], bool] = {}      # (angle key, axis) -> "this component is zero" on the path being run
+        self.used_trig = False
 
     # -- class helpers ---------------------------------------------------------------------------
     def cname(self, n: ast.AST) -> Optional[str]:
@@ -126,6 +147,7 @@ class Dispatcher:
         if mat.kind != 'mat' or target.kind != 'ang':
             raise AnalysisError('_to_angle applied to wrong kinds')
         target.data = ('to_angle', tuple(sorted((s, repr(p)) for s, p in mat.data.items())))
+        target.mat = dict(mat.data)       # type: ignore[attr-defined]
         target.mutations.append('_to_angle')
         return target
 
@@ -230,12 +252,21 @@ class Dispatcher:
                 if 'entry store' not in base.mutations:
                     base.mutations.append('entry store')
                 return
+        if isinstance(t, ast.Attribute) and t.attr in ('_x', '_y', '_z', 'x', 'y', 'z') and isinstance(val, Poly):
+            base = self.ev(t.value, env)
+            if isinstance(base, Obj) and base.kind == 'vec' and base.cls != 'tuple':
+                base.data = list(base.data)
+                base.data['xyz'.index(t.attr[-1])] = val
+                if 'component store' not in base.mutations:
+                    base.mutations.append('component store')
+                return
         raise AnalysisError(f'{self.mod.relpath}:{st.lineno}: dispatch arm assigns to `{ast.unparse(t)}`')
 
     def truth(self, test: ast.AST, env: Dict[str, Any]) -> bool:
         if isinstance(test, ast.BoolOp):
-            vals = [self.truth(v, env) for v in test.values]
-            return all(vals) if isinstance(test.op, ast.And) else any(vals)
+            if isinstance(test.op, ast.And):
+                return all(self.truth(v, env) for v in test.values)        # short-circuit, as the interpreter does
+            return any(self.truth(v, env) for v in test.values)
         if isinstance(test, ast.UnaryOp) and isinstance(test.op, ast.Not):
             return not self.truth(test.operand, env)
         if isinstance(test, ast.Call) and dotted(test.func) == 'isinstance' and len(test.args) == 2:
@@ -249,6 +280,19 @@ class Dispatcher:
                 if self.is_instance(obj, c):
                     return True
             return False
+        if isinstance(test, ast.Compare) and len(test.ops) == 1 and isinstance(test.ops[0], (ast.Eq, ast.NotEq)):
+            a, b = test.left, test.comparators[0]
+            for x, y in ((a, b), (b, a)):
+                if isinstance(y, ast.Constant) and isinstance(y.value, (int, float)) and not isinstance(y.value, bool) and y.value == 0:
+                    try:
+                        v = self.ev(x, env)
+                    except AnalysisError:
+                        continue
+                    if isinstance(v, AngComp) and not v.radians:
+                        k = (v.key, v.axis)
+                        if k not in self.assume:
+                            raise NeedAssume(k)
+                        return self.assume[k] if isinstance(test.ops[0], ast.Eq) else not self.assume[k]
         raise AnalysisError(f'{self.mod.relpath}:{getattr(test, "lineno", 0)}: test not modelled in dispatch arm: `{ast.unparse(test)[:80]}`')
 
     def ev(self, n: ast.AST, env: Dict[str, Any]) -> Any:
@@ -267,6 +311,8 @@ class Dispatcher:
                 return base.data['xyz'.index(n.attr[-1])]
             if isinstance(base, Obj) and base.kind == 'mat' and n.attr.startswith('_') and n.attr[1:] in SLOTS:
                 return base.data[n.attr[1:]]
+            if isinstance(base, Obj) and base.kind == 'ang' and n.attr.lstrip('_') in ANG_AXES and isinstance(base.data, tuple) and base.data[0] == 'angle':
+                return AngComp(repr(base.data), ANG_AXES[n.attr.lstrip('_')])
             raise AnalysisError(f'{self.mod.relpath}:{n.lineno}: attribute not modelled: `{ast.unparse(n)}`')
         if isinstance(n, ast.BinOp) and isinstance(n.op, ast.MatMult):
             res, _ = self.binop(self.ev(n.left, env), self.ev(n.right, env), inplace=False)
@@ -287,6 +333,17 @@ class Dispatcher:
 
     def call(self, n: ast.Call, env: Dict[str, Any]) -> Any:
         f = n.func
+        d = dotted(f)
+        if d in ('math.radians', 'radians', 'math.cos', 'cos', 'math.sin', 'sin') and len(n.args) == 1 and not n.keywords:
+            a = self.ev(n.args[0], env)
+            if isinstance(a, AngComp):
+                fn = str(d).split('.')[-1]
+                if fn == 'radians' and not a.radians:
+                    return AngComp(a.key, a.axis, radians=True)
+                if fn in ('cos', 'sin') and a.radians:
+                    self.used_trig = True
+                    return trig_sym(fn, a)
+            raise AnalysisError(f'{self.mod.relpath}:{n.lineno}: trigonometric call not modelled in dispatch arm: `{ast.unparse(n)[:80]}`')
         # type(x)
         if isinstance(f, ast.Name) and f.id == 'type' and len(n.args) == 1:
             o = self.ev(n.args[0], env)
